@@ -215,6 +215,8 @@ func facts() map[string]any {
 		"segmap_count_atomic":               countIsAtomic(segMapT),
 		"cache_wrappers_touching_internals": cacheWrappersTouchingInternals(),
 		"cache_delegations":                 cacheDelegations(),
+		"limiter_cleanup_locks":             limiterCleanupLocks(),
+		"len_functions_touching_locks":      lenFunctionsTouchingLocks(),
 		"segmap_trylocks":                   tryLocks(),
 	}
 }
@@ -361,4 +363,91 @@ func tryLocks() int {
 		})
 	}
 	return n
+}
+
+// muCalls counts `.mu.Lock()` and `.mu.RLock()` calls in one function body.
+func muCalls(body *ast.BlockStmt) (w, r int) {
+	ast.Inspect(body, func(n ast.Node) bool {
+		call, ok := n.(*ast.CallExpr)
+		if !ok {
+			return true
+		}
+		sel, ok := call.Fun.(*ast.SelectorExpr)
+		if !ok {
+			return true
+		}
+		recv, ok := sel.X.(*ast.SelectorExpr)
+		if !ok || recv.Sel.Name != "mu" {
+			return true
+		}
+		switch sel.Sel.Name {
+		case "Lock":
+			w++
+		case "RLock":
+			r++
+		}
+		return true
+	})
+	return
+}
+
+// limiterCleanupLocks: [exclusive, shared] acquisitions of the store lock in
+// LimiterStore.Cleanup (expected [1, 0]: one critical section).
+func limiterCleanupLocks() []int {
+	repo := os.Getenv("VERIF_REPO")
+	if repo == "" {
+		repo = "/repo"
+	}
+	fset := token.NewFileSet()
+	file, err := parser.ParseFile(fset, filepath.Join(repo, "middleware/ratelimit/limiter_store.go"), nil, 0)
+	if err != nil {
+		return []int{-1, -1}
+	}
+	for _, d := range file.Decls {
+		if fd, ok := d.(*ast.FuncDecl); ok && fd.Recv != nil && fd.Body != nil && fd.Name.Name == "Cleanup" {
+			w, r := muCalls(fd.Body)
+			return []int{w, r}
+		}
+	}
+	return []int{-1, -1}
+}
+
+// lenFunctionsTouchingLocks lists the length readers of the tables (Len,
+// SegmentCount of the segmented table, Len of Cache / SyncUInt64Map) whose
+// body mentions a segment lock or walks the segments.
+func lenFunctionsTouchingLocks() []string {
+	repo := os.Getenv("VERIF_REPO")
+	if repo == "" {
+		repo = "/repo"
+	}
+	bad := []string{}
+	for _, rel := range []string{"internal/cache/segment_uint64_map.go", "internal/cache/cache.go", "internal/cache/uint64_sync_map.go"} {
+		fset := token.NewFileSet()
+		file, err := parser.ParseFile(fset, filepath.Join(repo, rel), nil, 0)
+		if err != nil {
+			return []string{rel + ":missing"}
+		}
+		for _, d := range file.Decls {
+			fd, ok := d.(*ast.FuncDecl)
+			if !ok || fd.Recv == nil || fd.Body == nil || (fd.Name.Name != "Len" && fd.Name.Name != "SegmentCount") {
+				continue
+			}
+			touches := false
+			ast.Inspect(fd.Body, func(n ast.Node) bool {
+				switch x := n.(type) {
+				case *ast.Ident:
+					if x.Name == "rwlock" {
+						touches = true
+					}
+				case *ast.RangeStmt:
+					touches = true
+				}
+				return true
+			})
+			if touches {
+				bad = append(bad, filepath.Base(rel)+":"+fd.Name.Name)
+			}
+		}
+	}
+	return bad
 }
